@@ -720,6 +720,8 @@ def build(E):
             elem = v[3] if v else UNK
             desc = "split_at(%s,%s)" % (F.d_op(t["args"][0]), F.d_op(t["args"][1]))
             ok = mid is not None and mid[1] >= 0 and mid[2] <= lo_len
+            if not ok and mid is not None and mid[1] >= 0 and len(t["args"]) > 1 and F.le_len(st, t["args"][1], t["args"][0], args[0][0]):
+                ok = True       # relational: the path compared mid with the length of this slice
             detail = "mid in %s, length >= %d" % ("[%d, %d]" % (mid[1], mid[2]) if mid else "?", lo_len)
             okind = "bounds" if kind != "str" else "str-index"
             if kind == "str" and ok and not (mid[1] == mid[2] == 0):
